@@ -103,7 +103,12 @@ func runC15(c *Ctx) {
 		r.Discharge("O2", "root "+funcKey(root), c.P.pos(root.Pos()), fmt.Sprintf("comparator root; %d module functions reachable, explicit panics listed separately", len(reach)))
 	}
 
-	// O3
+	ruleO3(c)
+	checkO4(c)
+}
+
+func ruleO3(c *Ctx) {
+	r := c.R
 	nsort := 0
 	for _, fn := range c.moduleFuncs() {
 		eachInstr(fn, func(ins ssa.Instruction) {
@@ -137,8 +142,6 @@ func runC15(c *Ctx) {
 	if nsort == 0 {
 		r.Fatal("anchor missing: no sort call found in the module")
 	}
-
-	checkO4(c)
 }
 
 func isDifference(v ssa.Value) bool {
